@@ -340,7 +340,7 @@ def _np_of(p):
 def _pipe_leaf(rng, shape):
     kind = rng.random()
     chunks = [list(c) for c in U.rand_chunks(rng, shape)]
-    if kind < 0.6 or len(shape) != 1:
+    if kind < 0.6 or (kind < 0.75 and len(shape) != 1):
         dt = rng.choice(["int64", "int64", "float64"])
         n = U.prod_shape(shape)
         data = [rng.randint(-4, 4) for _ in range(n)] if dt == "int64" else [rng.choice([0.5, -1.25, 2.0, 3.75]) * rng.randint(-2, 2) for _ in range(n)]
@@ -377,6 +377,27 @@ def _pipe_prog(rng, shape, depth):
             else:
                 big.append(n)
                 index.append([None, None, -1])
+        # integer indices (an extra source axis that the index drops), newaxis (a size-1 result axis that the source
+        # does not have), negative bounds, trailing full slices left out
+        if rng.random() < 0.5:
+            pos = rng.randint(0, len(big))
+            m = rng.randint(1, 3)
+            big.insert(pos, m)
+            index.insert(pos, rng.choice([rng.randrange(m), -rng.randint(1, m)]))
+        ones = [i for i, ix in enumerate(index) if isinstance(ix, list) and ix[2] in (None, 1) and ix[1] is not None and ix[1] - ix[0] == 1]
+        if ones and rng.random() < 0.4 and len([ix for ix in index if isinstance(ix, list)]) > 1:
+            i = rng.choice(ones)
+            index[i] = "newaxis"
+            del big[i]
+        for i, ix in enumerate(index):
+            if isinstance(ix, list) and ix[2] in (None, 1) and ix[0] is not None and rng.random() < 0.3:
+                bi = big[sum(1 for j in range(i) if index[j] != "newaxis")]
+                index[i] = [ix[0] - bi if ix[0] > 0 else ix[0], ix[1] - bi if ix[1] < bi else None, ix[2]]
+        while index and isinstance(index[-1], list) and index[-1] in ([0, big[-1], None], [0, big[-1], 1]) and rng.random() < 0.5 \
+                and "newaxis" not in index:
+            index.pop()
+        if not big:
+            return _pipe_leaf(rng, shape)
         return {"op": "getitem", "index": index, "a": _pipe_prog(rng, tuple(big), depth - 1)}
     if r < 0.7:
         return {"op": "rechunk", "chunks": [list(c) for c in U.rand_chunks(rng, shape)], "a": _pipe_prog(rng, shape, depth - 1)}
@@ -473,7 +494,49 @@ def gen_grid_reduce(ctx, n):
                                 "keepdims": rng.random() < 0.4, "split_every": rng.choice([None, None, 2, 3, 4]), "a": leaf}}
 
 
+def gen_index(ctx, n):
+    """one or two indexing steps on a chunked array: integers (positive / negative), slices with any step and negative
+    bounds, newaxis anywhere, trailing axes left out — followed (sometimes) by an elementwise op or a reduction"""
+    rng = ctx.rng
+    for _ in range(n):
+        shape = tuple(rng.randint(1, 5) for _ in range(rng.randint(1, 3)))
+        prog = {"op": "from_array", "data": [rng.randint(-9, 9) for _ in range(U.prod_shape(shape))], "shape": list(shape),
+                "dtype": "int64", "chunks": [list(c) for c in U.rand_chunks(rng, shape)]}
+        cur = list(shape)
+        for _ in range(rng.choice([1, 1, 2])):
+            if not cur:
+                break
+            index, new = [], []
+            k = rng.randint(1, len(cur)) if rng.random() < 0.3 else len(cur)
+            for m in cur[:k]:
+                r = rng.random()
+                if r < 0.35 and m > 0:
+                    index.append(rng.choice([rng.randrange(m), -rng.randint(1, m)]))
+                else:
+                    start = rng.choice([None, rng.randint(-m, m)])
+                    stop = rng.choice([None, rng.randint(-m, m + 1)])
+                    step = rng.choice([None, 1, 1, 2, 3, -1, -2])
+                    index.append([start, stop, step])
+                    new.append(len(range(*slice(start, stop, step).indices(m))))
+            new += cur[k:]
+            for _ in range(rng.choice([0, 0, 1, 1, 2])):
+                pos = rng.randint(0, len(index))
+                index.insert(pos, "newaxis")
+            prog = {"op": "getitem", "index": index, "a": prog}
+            with warnings.catch_warnings():
+                warnings.simplefilter("ignore")
+                cur = list(np.asarray(P.build(prog, np, False)).shape)
+        r = rng.random()
+        if r < 0.25:
+            prog = {"op": "unary", "fn": "negative", "a": prog}
+        elif r < 0.5 and cur and all(cur):
+            prog = {"op": "reduce", "fn": rng.choice(["sum", "max"]), "axis": rng.choice([None] + list(range(len(cur)))),
+                    "keepdims": rng.random() < 0.5, "split_every": rng.choice([None, 2]), "a": prog}
+        yield "pipe", {"prog": prog}
+
+
 def generate(ctx):
+    yield from gen_index(ctx, ctx.n(120, 1500))
     yield from gen_grid_reduce(ctx, ctx.n(30, 300))
     yield from gen_joint(ctx, ctx.n(40, 400))
     yield from gen_multistage(ctx, ctx.n(25, 250))
